@@ -61,6 +61,7 @@ type Frame struct {
 	loopOf map[*ssa.BasicBlock]int
 	rets   []retInfo
 	typeArgs map[string]types.Type
+	curSite  ssa.Instruction
 	heads    map[*ssa.BasicBlock]*State
 }
 
